@@ -44,6 +44,7 @@ structure W where
   id : Nat
   kind : String     -- str jstr json slite mini bytes rkyvs rkyvi
   direct : Bool     -- variant `d` (no resource object on the client)
+  nested : String := ""  -- "sv" / "res": its initialiser / fetcher creates an inner SharedValue (write k + 1)
   raw : List Nat    -- the op's value payload (bytes)
   aux : List Nat    -- the op's second payload (kinds whose encoding is not modelled)
   enc : Str         -- the encoded string handed to `write_async`
@@ -241,6 +242,8 @@ def step (st : St) (line : String) : St × String :=
   | "write" :: kind :: variant :: rest =>
     let kinds := ["str", "jstr", "json", "slite", "mini", "bytes", "rkyvs", "rkyvi"]
     let hasAux := kind == "slite" || kind == "mini" || kind == "rkyvs" || kind == "rkyvi"
+    let nested := if variant == "svn" then "sv" else if variant == "arn" || variant == "rn" then "res" else ""
+    let variant := if variant == "svn" then "sv" else if variant == "arn" then "ar" else if variant == "rn" then "r" else variant
     if !kinds.contains kind || !["d", "ar", "r", "ao", "o", "sv", "arb", "rb", "aob", "ob"].contains variant then (st, "bad-op") else
     let payloads : Option (List Nat × List Nat) :=
       match rest, hasAux with
@@ -260,12 +263,28 @@ def step (st : St) (line : String) : St × String :=
         let shared := variant == "sv"
         let blocking := variant == "arb" || variant == "rb" || variant == "aob" || variant == "ob"
         -- resource.rs / once_resource.rs / shared.rs: draw an id, (defer the stream if blocking,) write if the flag is on
-        let (i, srv, _deferred) := st.srv.createCarrier blocking shared key enc
-        let w : W := { id := i, kind := kind, direct := variant == "d", raw := raw, aux := aux, enc := enc,
-                       reg := hyd, late := isDone srv || st.consumeStarted, consumed := false,
-                       completed := hyd && shared, emitted := 0 }
-        ({ st with srv := srv, writes := st.writes ++ [w], created := st.created ++ [Created.write key hyd] },
-         s!"w {key} {i} {if hyd then 1 else 0} enc={hexOfStr enc} ## ok")
+        if nested == "" then
+          let (i, srv, _deferred) := st.srv.createCarrier blocking shared key enc
+          let w : W := { id := i, kind := kind, direct := variant == "d", raw := raw, aux := aux, enc := enc,
+                         reg := hyd, late := isDone srv || st.consumeStarted, consumed := false,
+                         completed := hyd && shared, emitted := 0 }
+          ({ st with srv := srv, writes := st.writes ++ [w], created := st.created ++ [Created.write key hyd] },
+           s!"w {key} {i} {if hyd then 1 else 0} enc={hexOfStr enc} ## ok")
+        else
+          -- ids are drawn in creation-START order: the outer carrier's first, then the one its
+          -- initialiser / fetcher creates; the inner value is handed to `write_async` first
+          let innerEnc : Str := ("inner-of-" ++ hexOfBytes raw).toList.map Char.toNat
+          let (i, srv1) := st.srv.nextId
+          let (j, srv2) := srv1.nextId
+          let srv3 := if hyd then srv2.writeReady (key + 1) j innerEnc else srv2
+          let srv := if hyd then (if shared then srv3.writeReady key i enc else srv3.writeAsync key i enc) else srv3
+          let late := isDone srv || st.consumeStarted
+          let w : W := { id := i, kind := kind, direct := false, nested := nested, raw := raw, aux := aux, enc := enc,
+                         reg := hyd, late := late, consumed := false, completed := hyd && shared, emitted := 0 }
+          let wi : W := { id := j, kind := "str", direct := false, raw := utf8Encode innerEnc, aux := [], enc := innerEnc,
+                          reg := hyd, late := late, consumed := false, completed := hyd, emitted := 0 }
+          ({ st with srv := srv, writes := st.writes ++ [w, wi], created := st.created ++ [Created.write key hyd] },
+           s!"w {key} {i} {if hyd then 1 else 0} enc={hexOfStr enc} inner={j} ## ok")
   | ["err", b, e, h] =>
     match b.toNat?, e.toNat?, strOfHex h with
     | some b, some e, some m =>
@@ -345,7 +364,14 @@ def step (st : St) (line : String) : St × String :=
             | none => "none"
           let fetches := if !w.direct && stt == "none" then fetches + 1 else fetches
           let bad := bad || ((lookup w.id).isSome && stt != "ok")
-          go rest c.nextId.2 (shown ++ [s!"{k}:{stt}"]) fetches bad
+          -- the inner SharedValue: a fetcher always runs at creation; an initialiser only when
+          -- nothing usable arrived for the outer value
+          let innerRuns := w.nested == "res" || (w.nested == "sv" && stt == "none")
+          let c1 := c.nextId.2
+          let innerFound := (lookup c1.nextId.1).isSome
+          let fetches := if innerRuns && !innerFound then fetches + 1 else fetches
+          let c2 := if innerRuns then c1.nextId.2 else c1
+          go rest c2 (shown ++ [s!"{k}:{stt}"]) fetches bad
       | _ :: rest => go rest c shown fetches bad
     let (shown, fetches, bad, cEnd) := go st.created c0 [] 0 false
     let shownS := if shown.isEmpty then "-" else ",".intercalate shown
